@@ -209,7 +209,8 @@ def unmarshal_method_frame_contract(which=None):
         return SObj(real_class(m), {f.name: SOpaque('foreign', c.st.fresh('garbage', sym.ObjS)) for f in m.fields})
 
     if which is None:
-        name, extra = FRM + '_unmarshal_method_frame', dict(trusted=True)
+        name, extra = FRM + '_unmarshal_method_frame', dict(trusted=True, established_by=lambda reg: [
+            c.name for c in reg.all if c.name.startswith(FRM + '_unmarshal_method_frame[')])
     elif which == 'other':
         name, extra = FRM + '_unmarshal_method_frame[short-or-unknown-id]', dict(selector=lambda fn, args: False,
                                                                                  check_cases={'shorter-than-a-method-id', 'unknown-method-id'})
@@ -330,7 +331,8 @@ def unmarshal_g_contract(which=None):
         return ('content-header[%s]' % label, build)
 
     if which is None:
-        extra = dict(name=FRM + 'unmarshal(g)', trusted=True)
+        extra = dict(name=FRM + 'unmarshal(g)', trusted=True, established_by=lambda reg: [
+            c.name for c in reg.all if c.name.startswith(FRM + 'unmarshal(g)[')])
         insts = [inst(m) for m in tables.METHODS]
         check = {'method-frame', 'content-header-frame'}
     elif which == 'header':
